@@ -10,6 +10,7 @@
 import NemoVerif.Lemmas.Pipeline
 import NemoVerif.Lemmas.PipelineV2
 import NemoVerif.Lemmas.PipelineTie
+import NemoVerif.Lemmas.PipelineCtx
 
 namespace NemoVerif.C02
 open NemoVerif NemoVerif.Pipeline
@@ -144,6 +145,148 @@ example : ∃ (cfg : Cfg) (t : Turn), WF cfg .input ∧ WF cfg .output ∧ gateS
    { user := "u", bot := "b", intent := .free, actFault := false, retrFault := false,
      vin := fun _ _ => .accept, vout := fun r _ => if r = 1 then .rewrite "m" else .accept },
    fun _ _ => rfl, fun _ _ => rfl, by decide, by decide, by decide, by decide⟩
+
+/-! ### Colang 1.0: the two contexts (`Models/PipelineCtx.lean`)
+
+The flows' context is rebuilt from the visible history (hidden turns removed), the actions' context
+(`compute_context(events)`: what rail actions, `$bot_message` parameters and
+`StartUtteranceBotAction(script=$bot_message)` read) from ALL `ContextUpdate` events.  The theorems
+below are about the event-level program `convE false` (the code as it is) started from an ARBITRARY event
+list `es` — any number of earlier turns, hidden or not, whatever values they left on either side — and
+an arbitrary conversation `ts` (any texts: repeated, equal to a hidden one, equal to a rejected one; any
+verdicts; any faults), with action rails and pure-Colang rails mixed in any order. -/
+
+section TwoContexts
+open NemoVerif.PipelineCtx
+
+theorem mem_zip_map {α β : Type} (f : α → β) : ∀ (l : List α) (p : α × β), p ∈ List.zip l (l.map f) → p.2 = f p.1
+  | [], _, h => by simp at h
+  | a :: l, p, h => by
+    simp only [List.map_cons, List.zip_cons_cons, List.mem_cons] at h
+    rcases h with rfl | h
+    · rfl
+    · exact mem_zip_map f l p h
+
+/-- `output_rails_see_current_text`: in every turn of every conversation, the output rails that run — action
+    rails reading the action-side context and pure-Colang rails reading the flows' context alike — are
+    shown the LLM text of THAT turn, each one the text its predecessor of that turn left (`Chained`);
+    the calls are exactly `gate` of the turn's own text (or none, when the turn ended before a bot
+    message existed). -/
+theorem output_rails_see_current_text (inRails outRails : List Rail) (es : List Ev) (ts : List TurnE) :
+    ∀ p ∈ List.zip ts (convE false inRails outRails es ts),
+      (p.2.outCalls = [] ∨ p.2.outCalls = gate p.1.vout (ids outRails) p.1.bot)
+      ∧ Chained p.1.vout p.1.bot p.2.outCalls := by
+  intro p hp
+  rw [convE_eq_spec] at hp
+  have h := mem_zip_map _ ts p hp
+  rw [h]
+  unfold specTurn
+  split
+  · exact ⟨Or.inl rfl, trivial⟩
+  · split
+    · exact ⟨Or.inl rfl, trivial⟩
+    · exact ⟨Or.inr rfl, gate_chained _ _ _⟩
+
+/-- `reply_is_checked_text`: the script uttered by `process bot message` in a turn (resolved on the action
+    side) is the text of THAT turn after ALL configured output rails ran on it in order with none
+    blocking, in its final rewritten form — never a text of another turn. -/
+theorem reply_is_checked_text (inRails outRails : List Rail) (es : List Ev) (ts : List TurnE) :
+    ∀ p ∈ List.zip ts (convE false inRails outRails es ts), ∀ x, p.2.uttered = some x →
+      p.2.outCalls = gate p.1.vout (ids outRails) p.1.bot
+      ∧ (gate p.1.vout (ids outRails) p.1.bot).map Prod.fst = ids outRails
+      ∧ (∀ c ∈ gate p.1.vout (ids outRails) p.1.bot, (p.1.vout c.1 c.2).continues = true)
+      ∧ x = gateText p.1.vout (ids outRails) p.1.bot := by
+  intro p hp x hx
+  rw [convE_eq_spec] at hp
+  have h := mem_zip_map _ ts p hp
+  rw [h] at hx ⊢
+  unfold specTurn at hx ⊢
+  split at hx
+  · simp at hx
+  · split at hx
+    · simp at hx
+    · rename_i hin hdf
+      simp only [hin, hdf, outSpec] at hx ⊢
+      cases hg : gateStop p.1.vout (ids outRails) p.1.bot with
+      | some w => simp [hg] at hx
+      | none =>
+        simp only [hg, Option.some.injEq] at hx
+        exact ⟨by simp, Pipeline.gate_full _ _ _ hg, Pipeline.gate_all_continue _ _ _ hg, hx.symm⟩
+
+/-- non-vacuity of `reply_is_checked_text` and of the repeated-text scenario: the three-turn conversation
+    "A passes; B: the second (action) rail raises, the turn is hidden; A again" on the code as it is —
+    in turn 3 both rails are shown A and A is uttered. -/
+def tA : TurnE := { user := "u1", bot := "A", vin := fun _ _ => .accept, vout := fun _ _ => .accept, dialogFault := false }
+def tBfault : TurnE := { user := "u2", bot := "B", vin := fun _ _ => .accept, vout := fun r _ => if r = 1 then .fault else .accept, dialogFault := false }
+
+example : (convE false [] [⟨0, false⟩, ⟨1, false⟩] [] [tA, tBfault, tA]).map (fun o => (o.outCalls, o.uttered))
+    = [([(0, "A"), (1, "A")], some "A"), ([(0, "B"), (1, "B")], none), ([(0, "A"), (1, "A")], some "A")] := by decide
+
+/-- The tie to `Pipeline`: for well-formed rails the rail calls of `turnV1` (what the correspondence compares
+    with the recorded action invocations) are the calls of the event-level turn, from every event list. -/
+theorem turnE_calls_eq_turnV1 (cfg : Cfg) (h : HistV1) (t : Turn) (hi : WF cfg .input) (ho : WF cfg .output) (hs : h.skip = false)
+    (inRails outRails : List Rail) (hin : ids inRails = cfg.inRails) (hout : ids outRails = cfg.outRails) (es : List Ev) :
+    let o := (turnE false inRails outRails
+      { user := t.user, bot := t.bot, vin := t.vin, vout := t.vout, dialogFault := genFaultV1 cfg t } es).1
+    railCalls .input (turnV1 cfg h t).1 = o.inCalls ∧ railCalls .output (turnV1 cfg h t).1 = o.outCalls := by
+  simp only [turnE_spec, hin, hout]
+  refine ⟨?_, ?_⟩
+  · rw [turnV1_input_calls cfg h t hi]
+    unfold specTurn
+    split
+    · rfl
+    · split <;> rfl
+  · rw [turnV1_eq_spec cfg h t hi ho hs, turnSpecV1_trace]
+    unfold specTurn
+    cases hg : gateStop t.vin cfg.inRails t.user with
+    | some w => simp [railCalls_output_inputTraceV1]
+    | none =>
+      simp only [railCalls_append, railCalls_output_inputTraceV1, railCalls_output_afterInputV1, List.nil_append]
+      by_cases hf : genFaultV1 cfg t = true
+      · simp [hf]
+      · have hf' : genFaultV1 cfg t = false := by simpa using hf
+        simp [hf', outSpec]
+
+/-- The seeded variant of `slide` ("a `set` that re-assigns the value the flows already see is not
+    published", `drop = true`) does NOT have the property: A passes; B faults in the second rail (hidden);
+    A again — the flows see `$bot_message = A` from turn 1, the update is dropped, the action side still
+    holds B: in turn 3 both action rails are shown B, and B (never fully checked) is uttered.
+    (Kernel-evaluated; the same conversation on the patched code is the replay of seed
+    `C02-c-redundant-set-not-recorded`.) -/
+theorem redundant_set_dropped_counterexample :
+    (convE true [] [⟨0, false⟩, ⟨1, false⟩] [] [tA, tBfault, tA]).map (fun o => (o.outCalls, o.uttered))
+      = [([(0, "A"), (1, "A")], some "A"), ([(0, "B"), (1, "B")], none), ([(0, "B"), (1, "B")], some "B")] := by decide
+
+/-- … and with a pure-Colang rail in front the two kinds of rails of ONE turn are shown different texts:
+    the pure rail (flow side) sees A, the action rail after it (action side) sees B. -/
+theorem redundant_set_dropped_views_differ :
+    ((convE true [] [⟨50, true⟩, ⟨1, false⟩] [] [tA, tBfault, tA]).map (fun o => o.outCalls))
+      = [[(50, "A"), (1, "A")], [(50, "B"), (1, "B")], [(50, "A"), (1, "B")]] := by decide
+
+/-- `every_call_checked_v1` (generation options per call, `convV1P`): whatever options earlier calls of the conversation
+    had, a call utters only the refusal, the internal-error text, or its LLM text after ALL output rails that ITS
+    options enable (all configured ones for a call without options) ran on it in order, in the final form. -/
+theorem every_call_checked_v1 (cfg : Cfg) (hi : WF cfg .input) (ho : WF cfg .output) :
+    ∀ (cs : List (CallOpts × Turn)) (h : HistV1), h.skip = false →
+      ∀ p ∈ List.zip cs (convV1P cfg h cs), ∀ x, Step.utter x ∈ p.2.1 →
+        x = refusal ∨ x = internalError ∨
+          (railCalls .output p.2.1 = gate p.1.2.vout (if p.1.1.output then cfg.outRails else []) p.1.2.bot
+            ∧ (gate p.1.2.vout (if p.1.1.output then cfg.outRails else []) p.1.2.bot).map Prod.fst = (if p.1.1.output then cfg.outRails else [])
+            ∧ x = gateText p.1.2.vout (if p.1.1.output then cfg.outRails else []) p.1.2.bot)
+  | [], _, _ => by simp [convV1P]
+  | (o, t) :: cs, h, hs => by
+    intro p hp x hx
+    simp only [convV1P, List.zip_cons_cons, List.mem_cons] at hp
+    have hwi : WF (callCfg cfg o) .input := fun he r => hi he r
+    have hwo : WF (callCfg cfg o) .output := fun he r => ho he r
+    rcases hp with rfl | hp
+    · rcases output_all_rails_v1 (callCfg cfg o) h t hwi hwo hs x hx with h1 | h1 | ⟨a, b, _, d⟩
+      · exact Or.inl h1
+      · exact Or.inr (Or.inl h1)
+      · exact Or.inr (Or.inr ⟨a, b, d⟩)
+    · exact every_call_checked_v1 cfg hi ho cs _ (turnV1_skip (callCfg cfg o) h t hs) p hp x hx
+
+end TwoContexts
 
 /-! ### Colang 2.x (guardrails.co) -/
 
